@@ -53,8 +53,9 @@ def rule_extrapolate(ctx: Ctx) -> RuleResult:
     g = gen[0]
     name_var, tmpl_var = norm(g.targets[0].slice), norm(g.value)
     # generation only for listed types
-    tests = [(norm(t), lab) for t, lab in ctx.ef._dominating_tests(cfg, g)]
-    if (f"{tvar} in {list_p}", "true") in tests:
+    from ..shape import facts_at as _fa
+
+    if (f"{tvar} in {list_p}", True) in _fa(ctx, f, g):
         res.ok("extrapolation scope", f"only under `{tvar} in {list_p}`: nothing is added for other types")
     else:
         res.violation([EX, "scope"], "generated types are not restricted to the listed types", f.relpath, g.lineno)
